@@ -382,6 +382,57 @@ def judge(ctx, binary, scripts, traces, tag):
             break      # one witness per script is enough
 
 
+# ---------------------------------------------------------------------------------------------------------------------
+# BEGIN stage "spoe-handler" (harness/cmd/c18h): the same kinds of scripts, but every request / response is a SPOE message
+# handled by the real top-level routing.Handler(dm) of a HandlingDataManager in flows mode (per-message state of the handler,
+# metric manager, active-stream pointer are then part of what concurrent transactions share); judged by the same
+# linearizability search.  Witnesses carry "level": "spoe-handler", replay files "harness": "c18h".
+def spoe_stage(ctx):
+    import random, time
+    t0 = time.time()
+    T = ctx.thorough
+    binary = ctx.build_harness("c18h")
+    rng = random.Random(ctx.seed * 7919 + 18)          # own stream: the other stages' random choices stay what they were
+    scripts = []
+    for s in range(1 if not T else 3):
+        cfg = {"M": rng.choice([1, 2, 3]), "C": rng.choice([1, 2, 3]), "W": 3600}
+        hs = []
+        for i in range(24 if not T else 80):
+            if i % 4 == 3:
+                hs.append(storm_history(rng, cfg, rng.randint(4, 7)))
+            else:
+                hs.append(rand_history(rng, cfg, rng.randint(2, 4), rng.randint(2, 4)))
+        scripts.append(script_of(cfg, hs))
+    for k in range(1 if not T else 3):
+        cfg = {"M": rng.choice([1, 2]), "C": rng.choice([1, 2]), "W": 3600}
+        scripts.append(script_of(cfg, [batch_storms(rng, 1500 if not T else 8000, 8)] +
+                                 [sel_storm_history(rng, 20 if not T else 100, 4)]))
+    traces = None
+    for attempt in range(3):
+        try:
+            traces = run_observing_crashes(ctx, binary, scripts, "spoe")
+            break
+        except Broken as b:
+            if "port clash" not in str(b) or attempt == 2:
+                raise
+    if traces is None:
+        return
+    orig = ctx.violation
+    def tagged(w, rp):
+        return orig(dict(w, level="spoe-handler"), dict(rp, harness="c18h"))
+    ctx.violation = tagged
+    try:
+        judge(ctx, binary, scripts, traces, "spoe")
+    finally:
+        ctx.violation = orig
+    ctx.notes.append("spoe-handler stage: %d histories through routing.Handler, %d operations, %.0f s" % (
+        sum(len(split_histories(t)[1]) for t in traces),
+        sum(e.get("n", 1) for t in traces for e in t if e.get("ev") in ("begin", "fwbatch", "cqbatch")), time.time() - t0))
+    ctx.log("spoe-handler stage done in %.1fs" % (time.time() - t0))
+# END stage "spoe-handler"
+# ---------------------------------------------------------------------------------------------------------------------
+
+
 def run(ctx):
     T = ctx.thorough
     binary = ctx.build_harness("c18")
@@ -423,6 +474,7 @@ def run(ctx):
         return
     ctx.sample({"kind": "recorded-concurrent-history", "events": split_histories(traces[0])[1][0][:16]})
     judge(ctx, binary, scripts, traces, "rand")
+    spoe_stage(ctx)        # (2b) the same through the real SPOE message handler (harness/cmd/c18h)
 
     # (3) directed schedules from the interleaving model, forced on the real Limiter through the yield point
     #     limiter.after_inc (between quota.Inc and quota.Allowed) and judged by the same linearizability search
@@ -491,7 +543,7 @@ def directed(ctx, binary, dcfg, scheds, tag):
 
 def replay(ctx, path):
     obj = json.load(open(path))
-    binary = ctx.build_harness("c18")
+    binary = ctx.build_harness(obj["replay"].get("harness", "c18"))       # "c18h": recorded through the SPOE handler
     rp = obj["replay"]
     if rp.get("crash"):
         for attempt in range(10):
